@@ -121,7 +121,15 @@ func c04canonical(rng *core.Rng, n int) []c04session {
 	// a Parse whose prespecified type reads as text, then a message of a type that needs a body but declares
 	// none (length word 4): nothing of the earlier message may be taken for its body
 	stale := pg.Parse("", "select 1", []uint32{0x45564c00, 0x53454c00})
+	negBind := func(v uint32) []byte {
+		b := pg.Bind("", "s", nil, [][]byte{{}}, nil) // (no value bytes behind the length word: the message is consistent for a reader that takes the word for NULL)
+		binary.BigEndian.PutUint32(b[5+1+2+2+2:], v) // the length word of the only value
+		return b
+	}
 	all := []c04session{
+		// a parameter length that is negative and not -1: no value has it, and NULL is spelled -1
+		{Name: "bind-parameter-length-minus-2", Msgs: cat([][]byte{start, pg.Parse("s", "select $1", nil), negBind(0xfffffffe), pg.Execute("", 0), pg.Sync(), pg.Query("select 1"), pg.Terminate()})},
+		{Name: "bind-parameter-length-int32-min", Msgs: cat([][]byte{start, pg.Parse("s", "select $1", nil), negBind(0x80000000), pg.Execute("", 0), pg.Sync(), pg.Query("select 1"), pg.Terminate()})},
 		{Name: "copy-binary-copydone-inside-the-first-row", Msgs: cat([][]byte{start, pg.Query("copyb in"), pg.CopyData(bin[:20]), pg.CopyDone(), pg.CopyData(bin[20:]), pg.Query("select 1"), pg.Terminate()})},
 		{Name: "header-only-query-after-unread-tail", Msgs: cat([][]byte{start, stale, pg.Raw('Q', nil), pg.Sync(), pg.Query("select 1"), pg.Terminate()})},
 		{Name: "header-only-parse-bind-after-unread-tail", Msgs: cat([][]byte{start, stale, pg.Raw('P', nil), pg.Sync(), stale, pg.Raw('B', nil), pg.Raw('E', nil), pg.Sync(), pg.Terminate()})},
@@ -193,9 +201,9 @@ func (ch c04) Run(c *core.Ctx) {
 	envTLS := hs.Start(hs.Parse, append(hooks, wire.MessageBufferSize(c04L), wire.TLSConfig(hs.ServerTLS()))...)
 	envs := c04envs{plain: hs.Start(hs.Parse, append(hooks, wire.MessageBufferSize(c04L))...), auth: hs.Start(hs.Parse, append(hooks, wire.MessageBufferSize(c04L), wire.SessionAuthStrategy(wire.ClearTextPassword(c04validator)))...)}
 	nb := ch.Batches(c.Tier)
-	ncanon, nmut := 24, 2500
+	ncanon, nmut := 26, 2500
 	if c.Tier == "thorough" {
-		ncanon, nmut = 43, 400000
+		ncanon, nmut = 45, 400000
 	}
 	canon := c04canonical(core.NewRng(c.Seed, "C04canon", 0, 0), ncanon)
 	cases := 0
@@ -728,13 +736,28 @@ func c04mutate(rng *core.Rng, msgs [][]byte) ([][]byte, string) {
 				}
 			}
 		}
-		b := pg.Bind(core.Pick(rng, []string{"", "p"}), core.Pick(rng, []string{"", "s", "b", "nosuch"}), pf, params, rf)
+		portal, stmt := core.Pick(rng, []string{"", "p"}), core.Pick(rng, []string{"", "s", "b", "nosuch"})
+		negative := nv > 0 && rng.Intn(4) == 0
+		if negative {
+			params[0] = []byte{}
+		}
+		b := pg.Bind(portal, stmt, pf, params, rf)
+		neg := ""
+		if negative {
+			// the length word of the first value is negative and not -1 (-2, -3, -65536, the smallest int32):
+			// no value has such a length, and NULL is spelled -1
+			off := 5 + len(portal) + 1 + len(stmt) + 1 + 2 + 2*nf + 2
+			if off+4 <= len(b) {
+				binary.BigEndian.PutUint32(b[off:], core.Pick(rng, []uint32{0xfffffffe, 0xfffffffd, 0xffff0000, 0x80000000, 0x80000001}))
+				neg = ",negative-length"
+			}
+		}
 		if k == 11 {
 			out[i] = b
 		} else {
 			out = append(out[:i+1], append([][]byte{b, pg.Execute("", 0), pg.Sync()}, out[i+1:]...)...)
 		}
-		return out, fmt.Sprintf("bind-counts(%d,%d,%d)", nf, nv, nr)
+		return out, fmt.Sprintf("bind-counts(%d,%d,%d%s)", nf, nv, nr, neg)
 	case 0: // truncate the stream after a random offset inside message i
 		if len(m) > 1 {
 			out[i] = m[:1+rng.Intn(len(m)-1)]
@@ -896,6 +919,10 @@ func (ch c04) fabricationWith(stream []byte, conn *tr.Conn, cs any, gssIsStartup
 			for _, p := range e.Data.(hs.ExecRec).Params {
 				if p != nil && !bytes.Contains(stream, p) {
 					return "statement received a parameter value that is not part of the input", hexs(p)
+				}
+				if p == nil && !bytes.Contains(stream, []byte{0xff, 0xff, 0xff, 0xff}) {
+					// NULL is spelled by the length word -1: a stream without one has no NULL parameter in it
+					return "statement received a NULL parameter although the input has no length word -1 in it", ""
 				}
 			}
 		case "copyread":
